@@ -38,7 +38,7 @@ type construct struct {
 	name string
 	// make builds the output iterator(s) over a source; the first is consumed,
 	// the others (Split) are handled by the stop script.
-	make func(src func() *fun.Iterator[int], w int) []*fun.Iterator[int]
+	make func(ctx context.Context, src func() *fun.Iterator[int], w int) []*fun.Iterator[int]
 }
 
 func one(it *fun.Iterator[int]) []*fun.Iterator[int] { return []*fun.Iterator[int]{it} }
@@ -46,49 +46,58 @@ func one(it *fun.Iterator[int]) []*fun.Iterator[int] { return []*fun.Iterator[in
 func constructs() []construct {
 	nw := fun.WorkerGroupConfNumWorkers
 	return []construct{
-		{"Split", func(src func() *fun.Iterator[int], w int) []*fun.Iterator[int] { return src().Split(w) }},
-		{"Buffer", func(src func() *fun.Iterator[int], w int) []*fun.Iterator[int] { return one(src().Buffer(w - 1)) }},
-		{"ParallelBuffer", func(src func() *fun.Iterator[int], w int) []*fun.Iterator[int] { return one(src().ParallelBuffer(w)) }},
-		{"itertool.Map", func(src func() *fun.Iterator[int], w int) []*fun.Iterator[int] {
+		{"Split", func(ctx context.Context, src func() *fun.Iterator[int], w int) []*fun.Iterator[int] { return src().Split(w) }},
+		{"Buffer", func(ctx context.Context, src func() *fun.Iterator[int], w int) []*fun.Iterator[int] { return one(src().Buffer(w - 1)) }},
+		{"ParallelBuffer", func(ctx context.Context, src func() *fun.Iterator[int], w int) []*fun.Iterator[int] { return one(src().ParallelBuffer(w)) }},
+		// BufferedChannel / Channel hand out a plain channel fed by a pump goroutine that lives on
+		// the context given at construction: the documented ways to stop are exhaustion and
+		// cancelling that context (there is no Close on a channel)
+		{"BufferedChannel", func(ctx context.Context, src func() *fun.Iterator[int], w int) []*fun.Iterator[int] {
+			return one(fun.ChannelIterator(src().BufferedChannel(ctx, w-1)))
+		}},
+		{"Channel", func(ctx context.Context, src func() *fun.Iterator[int], w int) []*fun.Iterator[int] {
+			return one(fun.ChannelIterator(src().Channel(ctx)))
+		}},
+		{"itertool.Map", func(ctx context.Context, src func() *fun.Iterator[int], w int) []*fun.Iterator[int] {
 			return one(itertool.Map(src(), func(_ context.Context, v int) (int, error) { return v, nil }, nw(w)))
 		}},
-		{"GenerateParallel", func(src func() *fun.Iterator[int], w int) []*fun.Iterator[int] {
+		{"GenerateParallel", func(ctx context.Context, src func() *fun.Iterator[int], w int) []*fun.Iterator[int] {
 			s := src()
 			return one(fun.Producer[int](s.ReadOne).GenerateParallel(nw(w)))
 		}},
-		{"MergeIterators", func(src func() *fun.Iterator[int], w int) []*fun.Iterator[int] {
+		{"MergeIterators", func(ctx context.Context, src func() *fun.Iterator[int], w int) []*fun.Iterator[int] {
 			its := make([]*fun.Iterator[int], w)
 			for i := range its {
 				its[i] = src()
 			}
 			return one(fun.MergeIterators(its...))
 		}},
-		{"itertool.Chain", func(src func() *fun.Iterator[int], w int) []*fun.Iterator[int] {
+		{"itertool.Chain", func(ctx context.Context, src func() *fun.Iterator[int], w int) []*fun.Iterator[int] {
 			its := make([]*fun.Iterator[int], w)
 			for i := range its {
 				its[i] = src()
 			}
 			return one(itertool.Chain(its...))
 		}},
-		{"itertool.MergeSlices", func(src func() *fun.Iterator[int], w int) []*fun.Iterator[int] {
+		{"itertool.MergeSlices", func(ctx context.Context, src func() *fun.Iterator[int], w int) []*fun.Iterator[int] {
 			sl := make([][]int, w)
 			for i := range sl {
 				sl[i] = []int{1, 2}
 			}
 			return one(itertool.MergeSlices(sl...))
 		}},
-		{"itertool.MergeSliceIterators", func(src func() *fun.Iterator[int], w int) []*fun.Iterator[int] {
+		{"itertool.MergeSliceIterators", func(ctx context.Context, src func() *fun.Iterator[int], w int) []*fun.Iterator[int] {
 			sl := make([][]int, w)
 			for i := range sl {
 				sl[i] = []int{1, 2}
 			}
 			return one(itertool.MergeSliceIterators(fun.SliceIterator(sl)))
 		}},
-		{"dt.Map.Keys", func(src func() *fun.Iterator[int], w int) []*fun.Iterator[int] {
+		{"dt.Map.Keys", func(ctx context.Context, src func() *fun.Iterator[int], w int) []*fun.Iterator[int] {
 			m := dt.Map[int, int]{1: 1, 2: 2, 3: 3}
 			return one(m.Keys())
 		}},
-		{"adt.Map.Keys", func(src func() *fun.Iterator[int], w int) []*fun.Iterator[int] {
+		{"adt.Map.Keys", func(ctx context.Context, src func() *fun.Iterator[int], w int) []*fun.Iterator[int] {
 			m := &adt.Map[int, int]{}
 			m.Store(1, 1)
 			m.Store(2, 2)
@@ -125,7 +134,7 @@ func scenario(c construct, n, k, w int, stop string, blocking bool) vs.Scenario 
 			// the context is cancelled only by the stop scripts that say so: Close
 			// alone must be enough to make every goroutine exit
 			ctx, cancel := context.WithCancel(context.Background())
-			outs := c.make(func() *fun.Iterator[int] { return source(n, blocking) }, w)
+			outs := c.make(ctx, func() *fun.Iterator[int] { return source(n, blocking) }, w)
 			it := outs[0]
 			read := func(max int) {
 				for i := 0; max < 0 || i < max; i++ {
@@ -195,6 +204,27 @@ func scenario(c construct, n, k, w int, stop string, blocking bool) vs.Scenario 
 				closeTwice(it)
 				others()
 				<-fin
+			case "close-first-read-others", "cancel-first-read-others":
+				// Split: stop the first-advanced output (Close, or cancel the context of its
+				// first advance); a consumer of a sibling output must not stay blocked: each of
+				// its reads returns an item or an error
+				read(k)
+				if stop == "close-first-read-others" {
+					closeTwice(it)
+				} else {
+					cancel()
+				}
+				ctx2, cancel2 := context.WithCancel(context.Background())
+				for _, o := range outs[1:] {
+					for i := 0; i <= n; i++ {
+						if _, err := o.ReadOne(ctx2); err != nil {
+							break
+						}
+					}
+					closeTwice(o)
+				}
+				cancel2()
+				consumerDone = true
 			case "abandon-one":
 				// advance one Split output, abandon it, close the others
 				read(k)
@@ -233,6 +263,30 @@ func build(tier string) ([]runner.Instance, time.Duration) {
 	for _, c := range constructs() {
 		for w := 1; w <= maxW; w++ {
 			for n := 1; n <= maxN; n++ {
+				if c.name == "BufferedChannel" || c.name == "Channel" {
+					if c.name == "Channel" && w > 1 {
+						continue
+					}
+					add(c, n, n, w, "exhaust", false, bound+1)
+					add(c, 0, 0, w, "exhaust", false, bound+1)
+					for k := 0; k <= n; k++ {
+						add(c, n, k, w, "cancel", false, bound)
+						if k == n {
+							add(c, n, k, w, "cancel", true, bound)
+						}
+					}
+					add(c, n, n, w, "cancel-other", true, bound)
+					continue
+				}
+				if c.name == "Split" && w > 1 {
+					for k := 0; k <= n; k++ {
+						add(c, n, k, w, "close-first-read-others", false, bound+1)
+						add(c, n, k, w, "cancel-first-read-others", false, bound+1)
+						if k == n {
+							add(c, n, k, w, "close-first-read-others", true, bound+1)
+						}
+					}
+				}
 				add(c, n, n, w, "exhaust", false, bound)
 				for k := 0; k <= n; k++ {
 					for _, stop := range []string{"close", "cancel", "close-cancel", "cancel-close"} {
